@@ -845,14 +845,42 @@ def sparse_columns_spec(rng):
     return spec
 
 
+def numeric_codes_ordinal_spec(rng):
+    """An ordinal feature held as small integer codes whose ranking is not their numeric order, with a target that
+    grows along the ranking (several groups survive, so that a float label can equal a raw code of another group)."""
+    cls = rng.choice(['BinaryCarver', 'ContinuousCarver', 'Discretizer', 'QualitativeDiscretizer'])
+    k = rng.choice([4, 5])
+    codes = list(range(k))
+    while codes == sorted(codes):
+        rng.shuffle(codes)
+    per = rng.choice([12, 16])
+    vals, y = [], []
+    for r, c in enumerate(codes):
+        vals += [c] * per
+        rate = 0.1 + 0.8 * r / (k - 1)
+        y += [(1 if rng.random() < rate else 0) if cls != 'ContinuousCarver' else round(10 * rate) + rng.choice([0, 1]) for _ in range(per)]
+    if cls != 'ContinuousCarver':
+        y[0], y[-1] = 0, 1
+    order = list(range(len(vals)))
+    rng.shuffle(order)
+    return {'cls': cls, 'features': {'o0': {'kind': 'ordinal', 'values': [vals[i] for i in order], 'order': [str(c) for c in codes]}},
+            'y': [y[i] for i in order],
+            'params': {'sort_by': rng.choice(['cramerv', 'tschuprowt']), 'min_freq': [1, 10], 'min_freq_mod': None, 'max_n_mod': rng.choice([4, 5]),
+                       'dropna': True, 'output_dtype': 'float', 'copy': True}}
+
+
 def hist_c03(seed, cls=None):
     rng = random.Random(seed)
-    if cls is None and rng.random() < 0.12:
+    r0 = rng.random()
+    if cls is None and r0 < 0.08:
+        spec = numeric_codes_ordinal_spec(rng)
+    elif cls is None and r0 < 0.2:
         spec = flat_then_zigzag_multiclass_spec(rng)
     else:
         spec = random_object_spec(rng, cls or rng.choice(['BinaryCarver', 'ContinuousCarver', 'MulticlassCarver', 'Discretizer',
                                                           'QuantitativeDiscretizer', 'QualitativeDiscretizer', 'BinaryCarver']))
-    spec['params']['output_dtype'] = 'float' if rng.random() < 0.8 else 'str'
+    if r0 >= 0.08 or cls is not None:
+        spec['params']['output_dtype'] = 'float' if rng.random() < 0.8 else 'str'
     o, X, y, kw = E.build(spec)
     h = _new('c03', seed, spec)
     if not h.fit(1, o, X, y, kw):
